@@ -220,7 +220,7 @@ def _is_number(t):
 
 
 def stmt_key(st):
-    e = _Canon().visit(copy.deepcopy(st))
+    e = _Canon().visit(canon_lambdas(st))
     return ast.dump(e, annotate_fields=False, include_attributes=False)
 
 
